@@ -1,9 +1,11 @@
 #!/bin/sh
 # Run every registered quick (or $1=thorough) check on the current tree; print one line each.
+# A check that exceeds the wall limit is killed and reported (rc=124): a hang is a harness fault, never a verdict.
 cd "$(dirname "$0")/.."
 TIER=${1:-quick}
+LIMIT=600; [ "$TIER" = thorough ] && LIMIT=1800
 for id in $(/venv/bin/python -c "import json;print(' '.join(c['property_id'] for c in json.load(open('MANIFEST.json'))['checks']))"); do
-  out=$(./check $id --tier $TIER 2>&1); rc=$?
+  out=$(timeout -k 10 $LIMIT ./check $id --tier $TIER 2>&1); rc=$?
   echo "$id rc=$rc $(echo "$out" | grep -E "^C[0-9]+ tier" | cut -c1-160)"
   if [ $rc -ne 0 ]; then echo "$out" | tail -5 | cut -c1-400; fi
 done
